@@ -11,9 +11,9 @@
    Model/C14refuse.v is the same code for transports that may refuse a datagram synchronously (the error is reported
    from inside message_interface.send()): [rrun (s, l) es] runs events [Ev e] and [Refuse r on/off], l = the remotes
    currently refused; [quiet es] = the transport never starts refusing.  With l = [] it IS Model/C14.v
-   (C14_accepting_transport_is_base_model); with refusals the code violates the property (the ..._refuted witnesses;
-   findings C14-R1 / C14-R2 in notes/C14.md). *)
-From Verif Require Import Lib.Py Lib.Tactics Gen.c14_message_id Model.C14 Model.C14refuse Proofs.C14 Proofs.C14step Proofs.C14req Proofs.C14mid Proofs.C14refuse Proofs.C14live.
+   (C14_accepting_transport_is_base_model).  The run-level theorems below hold for ARBITRARY refusals (they were
+   refuted for the code before /repo commits 11456f9 and 8d04b7c: findings C14-R1 / C14-R2 in notes/C14.md). *)
+From Verif Require Import Lib.Py Lib.Tactics Gen.c14_message_id Model.C14 Model.C14refuse Proofs.C14 Proofs.C14step Proofs.C14req Proofs.C14mid Proofs.C14refuse Proofs.C14drop Proofs.C14live.
 Import ListNotations.
 Open Scope Z_scope.
 
@@ -27,31 +27,23 @@ Theorem C14_step_without_refusal : forall s e, Inv s -> step_ev [] s e = step s 
 Proof. exact step_without_refusal. Qed.
 Print Assumptions C14_step_without_refusal.
 
-(* ---- at every instant at most one confirmable message per remote awaits its acknowledgement
-   (as long as the transport refuses nothing; refuted otherwise, see below) *)
-Theorem C14_one_exchange_per_remote : forall mid0 token0 rnd es r, quiet es = true ->
+(* ---- at every instant at most one confirmable message per remote awaits its acknowledgement — whatever the
+   transport refuses and when *)
+Theorem C14_one_exchange_per_remote : forall mid0 token0 rnd es r,
   let s := fst (fst (rrun (init mid0 token0 rnd, []) es)) in
   (count_r r s <= 1)%nat /\ (in_backlogs r s = true <-> count_r r s = 1%nat) /\
   Forall (fun m => m_mtype m = 0 /\ m_remote m = r) (backlog_of r s).
-Proof. exact quiet_one_exchange_per_remote. Qed.
+Proof. exact general_one_exchange_per_remote. Qed.
 Print Assumptions C14_one_exchange_per_remote.
-(* a refused retransmission ends the exchange (requests failed, queue dropped) but _retransmit puts it back: a new
-   confirmable message then makes two exchanges with one remote, and both messages are retransmitted side by side *)
-Theorem C14_one_exchange_per_remote_refuted : exists es r,
-  let s := fst (fst (rrun (init 0 0 [], []) es)) in count_r r s = 2%nat.
-Proof. exact one_exchange_per_remote_refuted. Qed.
-Print Assumptions C14_one_exchange_per_remote_refuted.
-Theorem C14_backlog_iff_exchange_refuted :
-  let s := fst (fst (rrun (init 0 0 [], []) [Ev (Request 1 0 0 2); Refuse 0 true; Ev Fire])) in
-  count_r 0 s = 1%nat /\ in_backlogs 0 s = false /\ outgoing_requests s = [].
-Proof. exact backlog_iff_exchange_refuted. Qed.
-Print Assumptions C14_backlog_iff_exchange_refuted.
-Theorem C14_two_in_flight_refuted :
-  let tr := concat (snd (rrun (init 0 0 [], []) (refused_retransmission ++ [Ev Fire; Ev Fire]))) in
-  exists m1 m2, m_sub m1 = Req 1 /\ m_sub m2 = Req 2 /\ m_remote m1 = 0 /\ m_remote m2 = 0 /\
-    In (Fail 1 NetworkError) tr /\ In (Tx m2 false) tr /\ In (Tx m1 true) tr /\ In (Tx m2 true) tr.
-Proof. exact two_in_flight_refuted. Qed.
-Print Assumptions C14_two_in_flight_refuted.
+Theorem C14_general_inv : forall mid0 token0 rnd es, Inv (fst (fst (rrun (init mid0 token0 rnd, []) es))).
+Proof. exact general_inv. Qed.
+Print Assumptions C14_general_inv.
+(* one event with any set l of refused remotes: invariant preserved, queues balanced, no internal error *)
+Theorem C14_general_step : forall l s e, Inv s ->
+  let s' := fst (step_ev l s e) in let o := snd (step_ev l s e) in
+  Inv s' /\ (forall r, backlog_of r s ++ subm r o = left r o ++ backlog_of r s') /\ (forall x, ~ In (Crash x) o).
+Proof. exact general_step. Qed.
+Print Assumptions C14_general_step.
 
 (* the invariant all step theorems below assume holds in every reachable state *)
 Theorem C14_reachable_inv : forall mid0 token0 rnd es, Inv (fst (run (init mid0 token0 rnd) es)).
@@ -61,30 +53,36 @@ Theorem C14_inv_preserved : forall s e, Inv s -> Inv (fst (step s e)).
 Proof. exact (fun s e H => proj1 (step_trans s e H)). Qed.
 Print Assumptions C14_inv_preserved.
 
-(* the AssertionError of _continue_backlog / send_message and the KeyErrors of _retransmit / _continue_backlog are
-   unreachable while the transport refuses nothing ... *)
-Theorem C14_no_internal_error : forall mid0 token0 rnd es e, quiet es = true ->
+(* the AssertionError of _continue_backlog / send_message and the KeyErrors of _retransmit are unreachable, also with a
+   transport that refuses datagrams from inside send() *)
+Theorem C14_no_internal_error : forall mid0 token0 rnd es e,
   ~ In (Crash e) (concat (snd (rrun (init mid0 token0 rnd, []) es))).
-Proof. exact quiet_nocrash. Qed.
+Proof. exact general_nocrash. Qed.
 Print Assumptions C14_no_internal_error.
-(* ... and reachable when it does: KeyError out of dispatch_message when the release of a held-back message is
-   refused (C14-R2), AssertionError when the exchange put back after a refused retransmission is acknowledged (C14-R1) *)
-Theorem C14_no_internal_error_refuted : exists es e, In (Crash e) (concat (snd (rrun (init 0 0 [], []) es))).
-Proof. exact no_internal_error_refuted. Qed.
-Print Assumptions C14_no_internal_error_refuted.
-Theorem C14_no_internal_error_refuted_assertion :
-  In (Crash AssertionError) (concat (snd (rrun (init 0 0 [], []) [Ev (Request 1 0 0 2); Refuse 0 true; Ev Fire; Refuse 0 false; Ev (RecvEmpty 0 2 0)]))).
-Proof. exact no_internal_error_refuted_assertion. Qed.
-Print Assumptions C14_no_internal_error_refuted_assertion.
 
 (* ---- FIFO refinement, none forgotten: for every remote, the confirmable messages submitted, in order, are
    exactly those that left the queue (first transmission, or discarded when the endpoint failed), in order,
    followed by the current backlog.  Equality of lists: each submission is accounted for exactly once. *)
-Theorem C14_fifo : forall mid0 token0 rnd es r, quiet es = true ->
+Theorem C14_fifo : forall mid0 token0 rnd es r,
   let s := fst (fst (rrun (init mid0 token0 rnd, []) es)) in let tr := concat (snd (rrun (init mid0 token0 rnd, []) es)) in
   subm r tr = left r tr ++ backlog_of r s.
-Proof. exact quiet_fifo. Qed.
+Proof. exact general_fifo. Qed.
 Print Assumptions C14_fifo.
+(* ... and a message is discarded ([Dropped]: from the queue on give-up / transport error / refusal, or because its own
+   first transmission was refused) only in a step after which no request to its remote is outstanding any more; no step
+   other than a request submission adds an outstanding request.  (Entries leave outgoing_requests only through
+   tm_dispatch_error / call_monitor / tm_process_response / Cancel, which emit Fail / Deliver / Cancelled for them by
+   definition; that every outstanding request to the remote gets its Fail in that step is C14_dropped_when_failed.) *)
+Theorem C14_discarded_only_with_requests_failed : forall l s e, Inv s ->
+  (forall m, In (Dropped m) (snd (step_ev l s e)) -> reqs (m_remote m) (fst (step_ev l s e)) = []) /\
+  ((forall q r mt maxre, e <> Request q r mt maxre) -> forall r en, In en (reqs r (fst (step_ev l s e))) -> In en (reqs r s)).
+Proof. exact step_ev_drop_clears. Qed.
+Print Assumptions C14_discarded_only_with_requests_failed.
+(* a refusal is, literally, the transport-error step: C14_dropped_when_failed describes what it does *)
+Theorem C14_refusal_is_transport_error : forall l what r s, refuses l r = true ->
+  send_via_transport l what r s = (fst (step s (TransportError r)), refused_ghost what ++ snd (step s (TransportError r))).
+Proof. exact refusal_is_transport_error. Qed.
+Print Assumptions C14_refusal_is_transport_error.
 
 (* ---- released as soon as, and only when, the exchange ahead is acknowledged or reset:
    (a) an ACK/RST from r with the message ID of the open exchange puts the head of r's queue on the wire in the
